@@ -12,6 +12,7 @@ import re
 import shutil
 import tempfile
 import textwrap
+import time
 
 from vmc import core
 from vmc.refs import osshkey
@@ -35,7 +36,8 @@ META = {
             "under the original armour; every line dropped / duplicated / swapped with the next; armour tag "
             "rewrites; the body of every other file under this file's armour.  Each mutated file is loaded with "
             "the right passphrase (and, for encrypted files, without one) by RSAKey, ECDSAKey and Ed25519Key "
-            "(quick: the two non-native classes only on every 4th offset) through from_private_key_file "
+            "(quick: the two non-native classes only on every 4th offset; the two RSA-2048 OpenSSH files every 4th "
+            "offset beyond the first 256; thorough adds double faults: two body bytes <= 4 apart) through from_private_key_file "
             "(and from_private_key on every 8th case).  Allowed outcomes: SSHException (any subclass), or a key "
             "that signs, verifies under its own public encoding and equals the public section of the very file "
             "it was loaded from.",
@@ -264,18 +266,40 @@ def n_bin(fid):
     return len(sp[1]) if sp else 0
 
 
-def cases(fid, level, lo, hi):
-    """deterministic enumeration: (label, content) for offsets lo..hi-1 of the given level."""
+# quick tier only: the two RSA-2048 OpenSSH-format files cost ~10 ms per load that reaches
+# RSAPrivateNumbers.private_key(); beyond the first 256 offsets of each level every 4th offset is taken.
+QUICK_STRIDE = {"rsa2048-ossh-bcrypt": 4, "rsa2048-ossh-nopad": 4}
+QUICK_DENSE = 256
+PAIR_WINDOW = 4
+PAIRS_SKIP = {"rsa2048-ossh-bcrypt", "rsa2048-ossh-nopad"}
+
+
+def offsets(fid, tier, lo, hi):
+    st = QUICK_STRIDE.get(fid, 1) if tier == "quick" else 1
+    return [i for i in range(lo, hi) if i < QUICK_DENSE or i % st == 0]
+
+
+def cases(fid, level, lo, hi, tier="thorough"):
+    """deterministic enumeration: (label, content, offset) for offsets lo..hi-1 of the given level."""
     c = CONTENT[fid]
     if level == "text":
-        for i in range(lo, hi):
+        for i in offsets(fid, tier, lo, hi):
             for k in TEXT_EDITS:
                 yield "text:%s@%d" % (k, i), text_edit(c, k, i), i
     elif level == "bin":
         head, raw, tail = split_armor(c)
-        for i in range(lo, hi):
+        for i in offsets(fid, tier, lo, hi):
             for k in BIN_EDITS:
                 yield "bin:%s@%d" % (k, i), rearmor(head, bin_edit(raw, k, i), tail), i
+    elif level == "pairs":
+        # double faults (thorough): two bytes of the decoded body, at most PAIR_WINDOW apart, both with
+        # bit 7 flipped / both set to ff
+        head, raw, tail = split_armor(c)
+        for i in range(lo, hi):
+            for j in range(i + 1, min(len(raw), i + 1 + PAIR_WINDOW)):
+                for k in ("flip7", "setff"):
+                    yield ("bin2:%s@%d+%d" % (k, i, j - i),
+                           rearmor(head, bin_edit(bin_edit(raw, k, i), k, j), tail), i)
     elif level == "struct":
         for j, (lab, cc) in enumerate(structural(fid)[lo:hi]):
             yield "struct:" + lab, cc, lo + j
@@ -425,22 +449,25 @@ def loaders_for(fid, tier, idx):
 _FIDX = {f[0]: i for i, f in enumerate(FILES)}
 _CIDX = {"RSAKey": 0, "ECDSAKey": 1, "Ed25519Key": 2, None: 3}
 _AIDX = {"file": 0, "fileobj": 1, "from_path": 2}
-_LIDX = {"text": 0, "bin": 1, "struct": 2}
+_LIDX = {"text": 0, "bin": 1, "struct": 2, "pairs": 3}
 _EIDX = {k: i for i, k in enumerate(sorted(set(TEXT_EDITS + BIN_EDITS)))}
 
 
 def nt_code(fid, cname, api, level, label, idx):
     """compact, collision-free integer for one (file, loader, edit) case."""
     e = _EIDX.get(label.split(":", 1)[1].split("@")[0], 0) if level != "struct" else 0
-    return ((((_FIDX[fid] * 4 + _CIDX[cname]) * 4 + _AIDX[api]) * 4 + _LIDX[level]) * 16 + e) * 65536 + idx
+    if level == "pairs":
+        e = e * 4 + int(label.rsplit("+", 1)[1]) - 1
+    return ((((_FIDX[fid] * 4 + _CIDX[cname]) * 4 + _AIDX[api]) * 4 + _LIDX[level]) * 64 + e) * 65536 + idx
 
 
 def work(item, acc):
     _, fid, level, lo, hi, tier = item
     pw = FSPEC[fid][3]
     orig = CONTENT[fid]
+    t0 = time.process_time()
     try:
-        for label, content, idx in cases(fid, level, lo, hi):
+        for label, content, idx in cases(fid, level, lo, hi, tier):
             if content == orig:
                 acc.count("edit_is_identity")
                 continue
@@ -456,6 +483,7 @@ def work(item, acc):
             acc.sample({"file": fid, "level": level, "first_case": next(iter(cases(fid, level, 0, 1)))[0],
                         "offsets": n_bin(fid), "edits_per_offset": BIN_EDITS})
     finally:
+        acc.count("cpu_ms_file_" + fid, int((time.process_time() - t0) * 1000))
         if WORKDIR[0]:
             shutil.rmtree(WORKDIR[0], ignore_errors=True)
             WORKDIR[0] = None
@@ -504,7 +532,10 @@ def main(tier):
         fid = f[0]
         if only and fid not in only.split(","):
             continue
-        for level, n in (("text", n_text(fid)), ("bin", n_bin(fid)), ("struct", len(structural(fid)))):
+        levels = [("text", n_text(fid)), ("bin", n_bin(fid)), ("struct", len(structural(fid)))]
+        if tier == "thorough" and fid not in PAIRS_SKIP:
+            levels.append(("pairs", n_bin(fid)))
+        for level, n in levels:
             st = step if level != "struct" else 40
             for lo in range(0, n, st):
                 items.append(("edits", fid, level, lo, min(n, lo + st), tier))
